@@ -220,7 +220,12 @@ Fixpoint c16_scan (dl : nat) (t : track) (h : list (sop * sres)) (prev : list (s
       (match o, r with
        | SRemove ns, RUnit =>
            negb (existsb (N.eqb ns) (tr_open t))
-           && c16_dumps_ok ns (rev (firstn dl prev)) (firstn dl rest)
+           (* the removal of an existing document is bracketed by two dumps; removing a document that
+              does not exist is an acknowledged no-op the histories do not bracket *)
+           && match assoc_get ns (tr_caps t) with
+              | None => true
+              | Some _ => c16_dumps_ok ns (rev (firstn dl prev)) (firstn dl rest)
+              end
        | SRemove ns, RFail => existsb (N.eqb ns) (tr_open t)
        | SRemove _, _ => false
        | _, _ => true
